@@ -446,16 +446,24 @@ impl Engine for C12 {
             p_ins(if thorough { 100_000 } else { 40 }),
         ));
         v.push(Phase::new(
-            "syntactically valid programs: kind-agnostic expressions of <= 2 constructors x 27 contexts",
+            "corpus programs cut after each token (end of text, or one line break, right after it)",
+            p_prefix(),
+        ));
+        v.push(Phase::new(
+            "number literals at and around the ends of the integer types, in five places",
+            p_numbers(),
+        ));
+        v.push(Phase::new(
+            "syntactically valid programs: kind-agnostic expressions of <= 2 constructors x 28 contexts",
             json!({"space": "programs", "k": 2}),
         ));
         v.push(Phase::new(
-            "syntactically valid programs: kind-agnostic expressions of 3 constructors x 27 contexts",
+            "syntactically valid programs: kind-agnostic expressions of 3 constructors x 28 contexts",
             json!({"space": "programs", "k": 3}),
         ));
         if thorough {
             v.push(Phase::new(
-                "syntactically valid programs: kind-agnostic expressions of 4 constructors x 27 contexts",
+                "syntactically valid programs: kind-agnostic expressions of 4 constructors x 28 contexts",
                 json!({"space": "programs", "k": 4}),
             ));
         }
